@@ -29,9 +29,13 @@
 //!  * dgram_stream: a matching TC=1 datagram is followed by a stream attempt
 //!    and the TC datagram is never the caller's result.
 //!
-//! Transports covered: stream, dgram, dgram_stream, multi_stream.
-//! Not covered: redundant, load_balancer (random probing => executions are not
-//! reproducible), the `Queries` table in isolation (type is private; it is
+//! Transports covered: stream, dgram, dgram_stream, multi_stream, redundant,
+//! load_balancer. The last two run over two or three mock upstreams
+//! (`SendRequest` mocks whose calls the environment answers, fails, lets time
+//! out, or answers late); their random draws (probe decision, probe index) go
+//! through the library's `verif_rand` seam and are environment choices.
+//! multi_stream's reconnect jitter gets the fixed value 0.5 from the same seam.
+//! Not covered: the `Queries` table in isolation (type is private; it is
 //! driven through the stream transport instead, including slot recycling).
 //! Built with the /repo feature `verif-hooks`, under which stream.rs measures
 //! its response and idle timeouts on tokio's clock: the stream harness has
@@ -142,6 +146,10 @@ fn framed(msg: &[u8]) -> Vec<u8> {
 /// text: same ID and same question; a header-only error needs only the ID.
 /// Returns Err(reason) when not.
 fn answers(bytes: &[u8], ids: &[u16], q: usize) -> Result<(), &'static str> {
+    answers_opt(bytes, ids, q, true)
+}
+
+fn answers_opt(bytes: &[u8], ids: &[u16], q: usize, require_qr: bool) -> Result<(), &'static str> {
     let m = match wire::read_message(bytes) {
         Ok(m) => m,
         Err(_) => return Err("unparseable"),
@@ -149,7 +157,7 @@ fn answers(bytes: &[u8], ids: &[u16], q: usize) -> Result<(), &'static str> {
     if !ids.contains(&m.id) {
         return Err("id-mismatch");
     }
-    if m.flags & 0x8000 == 0 {
+    if require_qr && m.flags & 0x8000 == 0 {
         return Err("qr-clear");
     }
     if m.flags & 0x000F != 0 && m.counts == [0, 0, 0, 0] {
@@ -607,7 +615,18 @@ impl<'a> Core<'a> {
                 if owner != 99 && owner != i {
                     self.count("result.Ok.message-produced-for-another-caller(same id+question)");
                 }
-                if n_del == 0 {
+                // The load balancer answers with a SERVFAIL of its own making
+                // when no upstream is available (all over their burst limit).
+                let synthesized = self.tname == "load_balancer" && n_del == 0 && b.len() >= 12 && b[3] & 0x0F == 2;
+                if synthesized {
+                    self.count("lb.synthesized-servfail");
+                    if b[2] & 0x80 == 0 {
+                        self.violate(
+                            "C15|load_balancer|synthesized-servfail|qr-clear".into(),
+                            format!("request {i} was handed a locally made SERVFAIL whose QR bit is clear (it is a query, not a response): {}", hex(b)),
+                        );
+                    }
+                } else if n_del == 0 {
                     self.violate(format!("C15|{}|ok-response|not-a-delivered-message", self.tname), format!("request {i} got a message the peer never sent: {}", hex(b)));
                 } else if n_handed > n_del {
                     self.violate(format!("C15|{}|ok-response|one-message-handed-to-several-callers", self.tname), format!("message delivered {n_del}x handed to {n_handed} callers: {}", hex(b)));
@@ -622,7 +641,7 @@ impl<'a> Core<'a> {
                     self.deferred_id.push((i, id));
                     self.count("ok-before-request-on-wire(id check deferred)");
                 }
-                if let Err(why) = answers(b, &ids, self.reqs[i].q) {
+                if let Err(why) = answers_opt(b, &ids, self.reqs[i].q, !synthesized) {
                     self.violate(
                         format!("C15|{}|ok-response|{}", self.tname, why),
                         format!("request {i} (question {}, wire ids {:?}) was handed {} (produced for caller {owner}): {why}", self.reqs[i].q, ids, hex(b)),
@@ -2146,6 +2165,424 @@ async fn run_multi(g: &Global, cfg: &MultiCfg, ch: Arc<Mutex<Chooser>>) {
 }
 
 // ---------------------------------------------------------------------------
+// redundant and load_balancer harness
+// ---------------------------------------------------------------------------
+
+std::thread_local! {
+    /// The chooser of the execution running on this thread, if its random
+    /// draws are environment choices.
+    static RAND_CH: std::cell::RefCell<Option<Arc<Mutex<Chooser>>>> = const { std::cell::RefCell::new(None) };
+}
+
+/// Backend of the library's verification seam for random draws. Menu:
+/// 0.5 (default: no probe / middle index), 0.0 (probe, first index), 0.999
+/// (no probe, last index). Executions that do not register a chooser
+/// (multi_stream's reconnect jitter) always get 0.5.
+fn rand_backend(label: &'static str) -> f64 {
+    RAND_CH.with(|c| match &*c.borrow() {
+        Some(ch) => {
+            let k = ch.lock().unwrap().choose(3, if label == "random" { "rand-probe" } else { "rand-index" });
+            [0.5, 0.0, 0.999][k]
+        }
+        None => 0.5,
+    })
+}
+
+/// One request handed to a mock upstream by the transport under test.
+struct UpCall {
+    upstream: usize,
+    caller: usize,
+    id: u16,
+    q: usize,
+    at: Instant,
+    result: Option<Result<Vec<u8>, bool>>, // Err(true) = upstream's own timeout
+    taken: bool,
+    answered: bool,
+    failed: bool,
+    dropped: bool,
+    waker: Option<Waker>,
+}
+
+#[derive(Default)]
+struct UpShared {
+    calls: Vec<UpCall>,
+}
+
+struct MockUp {
+    idx: usize,
+    sh: Arc<Mutex<UpShared>>,
+}
+
+struct UpReq {
+    sh: Arc<Mutex<UpShared>>,
+    call: usize,
+}
+impl std::fmt::Debug for UpReq {
+    fn fmt(&self, f: &mut std::fmt::Formatter<'_>) -> std::fmt::Result {
+        write!(f, "UpReq({})", self.call)
+    }
+}
+impl Drop for UpReq {
+    fn drop(&mut self) {
+        self.sh.lock().unwrap().calls[self.call].dropped = true;
+    }
+}
+
+impl SendRequest<Rq> for MockUp {
+    fn send_request(&self, request_msg: Rq) -> Box<dyn domain::net::client::request::GetResponse + Send + Sync> {
+        use domain::net::client::request::ComposeRequest;
+        let bytes = request_msg.to_vec().expect("request composes");
+        let (caller, id, q) = parse_request(&bytes, "upstream");
+        let mut g = self.sh.lock().unwrap();
+        let call = g.calls.len();
+        g.calls.push(UpCall { upstream: self.idx, caller, id, q, at: Instant::now(), result: None, taken: false, answered: false, failed: false, dropped: false, waker: None });
+        Box::new(UpReq { sh: self.sh.clone(), call })
+    }
+}
+
+struct UpFut<'a> {
+    r: &'a UpReq,
+}
+impl Future for UpFut<'_> {
+    type Output = RespResult;
+    fn poll(self: Pin<&mut Self>, cx: &mut Context<'_>) -> Poll<RespResult> {
+        let mut g = self.r.sh.lock().unwrap();
+        let c = &mut g.calls[self.r.call];
+        match c.result.take() {
+            Some(Ok(b)) => {
+                c.taken = true;
+                Poll::Ready(Ok(Message::from_octets(Bytes::from(b)).expect("mock answer")))
+            }
+            Some(Err(timeout)) => {
+                c.taken = true;
+                Poll::Ready(Err(if timeout { Error::StreamReadTimeout } else { Error::ConnectionClosed }))
+            }
+            None => {
+                c.waker = Some(cx.waker().clone());
+                Poll::Pending
+            }
+        }
+    }
+}
+impl domain::net::client::request::GetResponse for UpReq {
+    fn get_response(&mut self) -> Pin<Box<dyn Future<Output = RespResult> + Send + Sync + '_>> {
+        Box::pin(UpFut { r: self })
+    }
+}
+
+fn up_resolve(sh: &Arc<Mutex<UpShared>>, call: usize, r: Result<Vec<u8>, bool>) {
+    let w = {
+        let mut g = sh.lock().unwrap();
+        let c = &mut g.calls[call];
+        match &r {
+            Ok(_) => c.answered = true,
+            Err(_) => c.failed = true,
+        }
+        c.result = Some(r);
+        c.waker.take()
+    };
+    if let Some(w) = w {
+        w.wake();
+    }
+}
+
+#[derive(Clone, Copy, Debug, PartialEq, Eq)]
+enum UpMode {
+    Answer,
+    Error,
+    /// never answers: after UP_TIMEOUT the upstream's own timeout fails the call
+    Silent,
+}
+
+#[derive(Clone, Debug)]
+struct ComboCfg {
+    lb: bool,
+    plan: Vec<usize>,
+    ups: Vec<UpMode>,
+    defer: bool,
+    /// load balancer only: max_burst of every upstream
+    max_burst: Option<u64>,
+    /// by default the next request is submitted only when nothing is open
+    sequential: bool,
+}
+impl ComboCfg {
+    fn json(&self) -> Value {
+        json!({"plan": self.plan, "upstreams_default": self.ups.iter().map(|u| format!("{u:?}")).collect::<Vec<_>>(), "defer_transport_error": self.defer, "max_burst": self.max_burst, "sequential": self.sequential})
+    }
+}
+
+const UP_TICK: Duration = Duration::from_millis(400);
+const UP_TIMEOUT: Duration = Duration::from_millis(2000);
+
+#[derive(Clone, Debug)]
+enum CAct {
+    Submit,
+    Answer(usize),
+    Fail(usize),
+    Timeout(usize),
+    Tick,
+    Cancel(usize),
+    Finish,
+}
+
+/// Poll `fut` (and the transport) until it is done.
+fn drive_setup(core: &mut Core, tr: &mut Option<Slot<()>>, fut: impl Future<Output = Result<(), Error>> + 'static) {
+    let mut s = Slot::new(fut);
+    for _ in 0..1000 {
+        let mut any = false;
+        if let Some(t) = tr.as_mut() {
+            match t.step() {
+                Ok((p, _)) => any |= p,
+                Err(pm) => {
+                    core.panic("transport-task", pm);
+                    return;
+                }
+            }
+        }
+        match s.step() {
+            Ok((p, Some(r))) => {
+                let _ = p;
+                if r.is_err() {
+                    eprintln!("MACHINERY: adding an upstream failed");
+                    std::process::exit(2);
+                }
+                return;
+            }
+            Ok((p, None)) => any |= p,
+            Err(pm) => {
+                core.panic("add", pm);
+                return;
+            }
+        }
+        if !any {
+            break;
+        }
+    }
+    eprintln!("MACHINERY: adding an upstream did not finish");
+    std::process::exit(2);
+}
+
+async fn run_combo(g: &Global, cfg: &ComboCfg, ch: Arc<Mutex<Chooser>>) {
+    use domain::net::client::{load_balancer, redundant};
+    let tname = if cfg.lb { "load_balancer" } else { "redundant" };
+    let mut core = Core::new(g, tname, cfg.json(), ch.clone(), &cfg.plan);
+    core.excuse_all = true; // Err causes are checked below, per upstream call
+    let sh = Arc::new(Mutex::new(UpShared::default()));
+    let conn: Box<dyn SendRequest<Rq>>;
+    let mut tr: Option<Slot<()>>;
+    if cfg.lb {
+        let mut c = load_balancer::Config::default();
+        c.set_defer_transport_error(cfg.defer);
+        let (cn, t) = load_balancer::Connection::<Rq>::with_config(c);
+        tr = Some(Slot::new(t.run()));
+        for idx in 0..cfg.ups.len() {
+            let c2 = cn.clone();
+            let up = MockUp { idx, sh: sh.clone() };
+            let mb = cfg.max_burst;
+            drive_setup(&mut core, &mut tr, async move {
+                let mut cc = load_balancer::ConnConfig::new();
+                cc.set_max_burst(mb);
+                c2.add("up", &cc, Box::new(up)).await
+            });
+        }
+        conn = Box::new(cn);
+    } else {
+        let mut c = redundant::Config::default();
+        c.set_defer_transport_error(cfg.defer);
+        let (cn, t) = redundant::Connection::<Rq>::with_config(c);
+        tr = Some(Slot::new(t.run()));
+        for idx in 0..cfg.ups.len() {
+            let c2 = cn.clone();
+            let up = MockUp { idx, sh: sh.clone() };
+            drive_setup(&mut core, &mut tr, async move { c2.add(Box::new(up)).await });
+        }
+        conn = Box::new(cn);
+    }
+    let mut conn = Some(conn);
+    let mut learnt = 0usize;
+    let mut ticks = 0;
+    let n_up = cfg.ups.len();
+
+    for _step in 0..64 {
+        core.quiesce(&mut tr);
+        if core.aborted {
+            break;
+        }
+        // learn new upstream calls
+        let news: Vec<(usize, usize, u16, usize)> = {
+            let gsh = sh.lock().unwrap();
+            gsh.calls[learnt..].iter().map(|c| (c.upstream, c.caller, c.id, c.q)).collect()
+        };
+        for (u, caller, id, q) in news {
+            if caller >= core.reqs.len() || core.reqs[caller].q != q {
+                eprintln!("MACHINERY: upstream call does not belong to any caller");
+                std::process::exit(2);
+            }
+            core.learn_id(caller, id);
+            core.note(format!("upstream {u} receives the request of caller {caller}"));
+            core.count(&format!("upstream-call.{u}"));
+            learnt += 1;
+        }
+        // Err needs a cause: an upstream call of this caller failed; with
+        // deferred transport errors every upstream must have been tried and
+        // have failed
+        for (i, e) in std::mem::take(&mut core.err_unexamined) {
+            let gsh = sh.lock().unwrap();
+            let mine: Vec<&UpCall> = gsh.calls.iter().filter(|c| c.caller == i).collect();
+            let failed = mine.iter().filter(|c| c.failed).count();
+            let answered = mine.iter().filter(|c| c.answered).count();
+            let tried: std::collections::BTreeSet<usize> = mine.iter().map(|c| c.upstream).collect();
+            drop(gsh);
+            if failed == 0 {
+                core.violate(format!("C15|{tname}|spurious-error|{e}"), format!("request {i} completed with Err({e}) although no upstream call made for it failed"));
+            } else if cfg.defer && cfg.max_burst.is_none() && (answered > 0 || tried.len() < n_up || failed < tried.len()) {
+                core.violate(
+                    format!("C15|{tname}|deferred-error|returned-before-every-upstream-failed"),
+                    format!("request {i} completed with Err({e}) with defer_transport_error set: {} of {n_up} upstreams tried, {failed} calls failed, {answered} answered", tried.len()),
+                );
+            } else {
+                core.count("err.has-upstream-cause");
+            }
+        }
+        let (open, ex): (Vec<usize>, String) = {
+            let gsh = sh.lock().unwrap();
+            let open = (0..gsh.calls.len()).filter(|c| !gsh.calls[*c].dropped && !gsh.calls[*c].taken && gsh.calls[*c].result.is_none()).collect();
+            let ex = format!("{:?}", gsh.calls.iter().map(|c| (c.upstream, c.caller, c.answered, c.failed, c.dropped)).collect::<Vec<_>>());
+            (open, ex)
+        };
+        core.state(&ex);
+        let now = Instant::now();
+        let next_unsub = (0..core.reqs.len()).find(|i| !core.reqs[*i].submitted);
+        let any_pending = (0..core.reqs.len()).any(|i| core.pending(i));
+        let mut menu: Vec<CAct> = Vec::new();
+        // default
+        let mut default_call: Option<usize> = None;
+        if next_unsub.is_some() && !(cfg.sequential && any_pending) {
+            menu.push(CAct::Submit);
+        } else {
+            let mut d = None;
+            for &c in &open {
+                let gsh = sh.lock().unwrap();
+                let (u, age) = (gsh.calls[c].upstream, now.duration_since(gsh.calls[c].at));
+                drop(gsh);
+                match cfg.ups[u] {
+                    UpMode::Answer => d = Some(CAct::Answer(c)),
+                    UpMode::Error => d = Some(CAct::Fail(c)),
+                    UpMode::Silent if age >= UP_TIMEOUT => d = Some(CAct::Timeout(c)),
+                    UpMode::Silent => {}
+                }
+                if d.is_some() {
+                    default_call = Some(c);
+                    break;
+                }
+            }
+            menu.push(match d {
+                Some(a) => a,
+                None if any_pending => CAct::Tick,
+                None if next_unsub.is_some() => CAct::Submit,
+                None => CAct::Finish,
+            });
+        }
+        let default_is_tick = matches!(menu[0], CAct::Tick);
+        if next_unsub.is_some() && !matches!(menu[0], CAct::Submit) {
+            menu.push(CAct::Submit);
+        }
+        for &c in &open {
+            if !(default_call == Some(c) && matches!(menu[0], CAct::Answer(_))) {
+                menu.push(CAct::Answer(c));
+            }
+            if !(default_call == Some(c) && matches!(menu[0], CAct::Fail(_))) {
+                menu.push(CAct::Fail(c));
+            }
+        }
+        if any_pending && !default_is_tick {
+            menu.push(CAct::Tick);
+        }
+        for i in 0..core.reqs.len() {
+            if core.pending(i) {
+                menu.push(CAct::Cancel(i));
+            }
+        }
+        let k = core.choose(menu.len(), "combo-step");
+        let act = menu[k].clone();
+        core.transitions += 1;
+        match act {
+            CAct::Submit => {
+                let i = next_unsub.unwrap();
+                core.count("action.submit");
+                // the random draws of this request's Query are environment choices
+                RAND_CH.with(|c| *c.borrow_mut() = Some(ch.clone()));
+                if let Some(c) = conn.as_ref() {
+                    core.submit(c, i);
+                }
+                core.quiesce(&mut tr);
+                RAND_CH.with(|c| *c.borrow_mut() = None);
+            }
+            CAct::Answer(c) => {
+                let (u, caller, id, q) = {
+                    let gsh = sh.lock().unwrap();
+                    (gsh.calls[c].upstream, gsh.calls[c].caller, gsh.calls[c].id, gsh.calls[c].q)
+                };
+                let s = core.next_serial();
+                let msg = mk_resp(id, q, RKind::Answer, caller, s);
+                core.note(format!("upstream {u} answers caller {caller}"));
+                core.count("action.upstream.answer");
+                core.delivered.push(Delivered { bytes: msg.clone(), udp: false });
+                if core.pending(caller) {
+                    core.expect.push((caller, msg.clone()));
+                }
+                up_resolve(&sh, c, Ok(msg));
+            }
+            CAct::Fail(c) | CAct::Timeout(c) => {
+                let timeout = matches!(act, CAct::Timeout(_));
+                let (u, caller) = {
+                    let gsh = sh.lock().unwrap();
+                    (gsh.calls[c].upstream, gsh.calls[c].caller)
+                };
+                core.note(format!("upstream {u} fails caller {caller}'s request ({})", if timeout { "its own timeout" } else { "transport error" }));
+                core.count(if timeout { "action.upstream.timeout" } else { "action.upstream.error" });
+                up_resolve(&sh, c, Err(timeout));
+            }
+            CAct::Tick => {
+                core.count("action.tick");
+                core.note(format!("virtual time advances by {UP_TICK:?}"));
+                ticks += 1;
+                if ticks > 24 {
+                    break;
+                }
+                tokio::time::advance(UP_TICK).await;
+            }
+            CAct::Cancel(i) => core.cancel(i),
+            CAct::Finish => {
+                let c = conn.take();
+                let _ = guard(move || drop(c));
+                core.quiesce(&mut tr);
+                break;
+            }
+        }
+    }
+    core.quiesce(&mut tr);
+    {
+        let gsh = sh.lock().unwrap();
+        let mut per: BTreeMap<usize, std::collections::BTreeSet<usize>> = BTreeMap::new();
+        for c in gsh.calls.iter() {
+            per.entry(c.caller).or_default().insert(c.upstream);
+        }
+        if per.values().any(|s| s.len() > 1) {
+            core.counters.insert("combo.executions-with-a-second-upstream-tried".into(), 1);
+        }
+        if gsh.calls.first().map(|c| c.upstream != 0).unwrap_or(false) {
+            core.counters.insert("combo.executions-first-call-not-on-upstream-0(probe)".into(), 1);
+        }
+    }
+    core.err_unexamined.clear();
+    core.finish();
+    let t = tr.take();
+    let _ = guard(move || drop(t));
+    let _ = guard(move || drop(conn));
+}
+
+// ---------------------------------------------------------------------------
 // driver
 // ---------------------------------------------------------------------------
 
@@ -2154,6 +2591,7 @@ enum Case {
     Stream(StreamCfg),
     Dgram(DgramCfg),
     Multi(MultiCfg),
+    Combo(ComboCfg),
 }
 
 impl Case {
@@ -2168,6 +2606,13 @@ impl Case {
                     "multi_stream"
                 }
             }
+            Case::Combo(c) => {
+                if c.lb {
+                    "load_balancer"
+                } else {
+                    "redundant"
+                }
+            }
         }
     }
     fn cfg_json(&self) -> Value {
@@ -2175,6 +2620,7 @@ impl Case {
             Case::Stream(c) => c.json(),
             Case::Dgram(c) => c.json(),
             Case::Multi(c) => c.json(),
+            Case::Combo(c) => c.json(),
         }
     }
 }
@@ -2189,6 +2635,9 @@ fn all_cases() -> Vec<Case> {
     }
     for c in multi_cfgs() {
         cases.push(Case::Multi(c));
+    }
+    for c in combo_cfgs() {
+        cases.push(Case::Combo(c));
     }
     cases
 }
@@ -2207,9 +2656,11 @@ fn run_case(g: &Global, case: &Case, ch: &mut Chooser) {
             Case::Stream(c) => run_stream(g, c, sh2).await,
             Case::Dgram(c) => run_dgram(g, c, sh2).await,
             Case::Multi(c) => run_multi(g, c, sh2).await,
+            Case::Combo(c) => run_combo(g, c, sh2).await,
         }
     });
     drop(rt);
+    RAND_CH.with(|c| *c.borrow_mut() = None);
     g.wd.leave();
     *ch = shared.lock().unwrap().clone();
 }
@@ -2276,6 +2727,27 @@ fn dgram_half_cfgs() -> Vec<DgramCfg> {
     v
 }
 
+fn combo_cfgs() -> Vec<ComboCfg> {
+    let mut v = Vec::new();
+    let modes = [UpMode::Answer, UpMode::Error, UpMode::Silent];
+    for lb in [false, true] {
+        for defer in [false, true] {
+            for a in modes {
+                for b in modes {
+                    for plan in [vec![0], vec![0, 0]] {
+                        v.push(ComboCfg { lb, plan, ups: vec![a, b], defer, max_burst: None, sequential: false });
+                    }
+                }
+            }
+            // three upstreams (the probe index is a real choice), requests one after the other
+            v.push(ComboCfg { lb, plan: vec![0, 1], ups: vec![UpMode::Silent, UpMode::Error, UpMode::Answer], defer, max_burst: None, sequential: true });
+        }
+    }
+    // load balancer whose only upstream has used up its burst
+    v.push(ComboCfg { lb: true, plan: vec![0, 0], ups: vec![UpMode::Answer], defer: false, max_burst: Some(0), sequential: true });
+    v
+}
+
 fn multi_cfgs() -> Vec<MultiCfg> {
     let mut v = Vec::new();
     // dgram_stream
@@ -2309,6 +2781,10 @@ fn multi_cfgs() -> Vec<MultiCfg> {
 
 fn main() {
     let ctx = Ctx::new("C15", "model_checking");
+    if !domain::net::client::verif_rand::set_backend(rand_backend) {
+        eprintln!("MACHINERY: cannot register the random backend");
+        std::process::exit(2);
+    }
     let thorough = !ctx.quick();
     let g = Global {
         ctx: ctx.clone(),
@@ -2402,9 +2878,10 @@ fn main() {
             "stream lateness is classified: messages arriving later than a request's start restart the connection-wide timer (known finding, own signature); once the connection has been silent for response_timeout the request must be gone (signature ...|connection-silent-for-response-timeout)",
             "dgram: time steps never cross a receive deadline (a step is cut at the next deadline), so the budget (1+max_retries)*read_timeout from the first transmission is exact; half-read-timeout steps allow stray datagrams between partial advances",
             "main stream timing cases configure response_timeout = 19 s (the library default) and idle_timeout = 300 ms; two cases configure 1 s to check that the configured value is honoured",
-            "redundant and load_balancer are not covered (rand-based probing makes executions irreproducible); the private Queries table is driven only through the stream transport",
+            "redundant / load_balancer: upstreams are SendRequest mocks (2, in one case 3; in one load-balancer case 1 with max_burst 0); an upstream that 'never answers' fails the call with its own timeout after 2 s of virtual time; time moves in 400 ms steps; Err needs a failed upstream call of that caller, and with defer_transport_error set every upstream must have been tried and have failed; defer_refused / defer_servfail are not exercised; the probe decision and probe index are environment choices {0.5, 0.0, 0.999} through the verif_rand seam",
+            "the private Queries table is driven only through the stream transport",
             "random request IDs (dgram) are read back from the bytes written; stale/wrong IDs sent by the mock are forced to differ from the current ID so the execution structure does not depend on the random draw",
-            "multi_stream/dgram_stream: virtual time advances in 64 s steps (>= any random retry delay), so retry jitter does not influence outcomes; connect refusal is offered only with a single caller (a second caller's NewConn inside the random error window would be nondeterministic)",
+            "multi_stream/dgram_stream: the reconnect jitter draw is fixed to 0.5 through the verif_rand seam and virtual time advances in 64 s steps (>= any retry delay); connect refusal is offered only with a single caller (a second caller's NewConn inside the random error window would be nondeterministic)",
             "the caller index is carried in the Z/AD/CD header bits of the request (untouched by the transports, irrelevant for matching) so the mock maps frames to callers exactly even for identical questions",
             "mock sockets are in-memory; real sockets, TLS and kernel buffering are out of scope",
         ],
